@@ -130,6 +130,29 @@ example : AllInt [⟨1, .int 5, [], []⟩, ⟨2, .int (-3), [], []⟩] ∧
 theorem selector_selects_a_point (fn : Fn) (xs : List QP) (p : QP) (h : select fn xs = some p) : p ∈ xs :=
   select_mem fn xs p h
 
+/-! ### Streaming transformations (elapsed, difference, cumulativeSum, movingAverage)
+
+Checked on every run by the spec oracle (`Spec.transAt`: the value attached to a point by DEFINITION over
+the points seen so far) and by correspondence; proved only in part. -/
+
+/-- Full-strength statement, NOT proved: for every history of batches, or of stream points, a streaming
+transformation's output is the spec's. Missing: the reducer state machines of difference and movingAverage
+against `transAt`, and the lifecycle induction for `influxqlStreamingTransformGroup` (context kept for the
+whole batch / for the whole life of the group). -/
+def transformations_refine_spec_stmt : Prop :=
+  ∀ (cfg : Cfg), cfg.fn.isTransformation = true → cfg.n ≥ 1 →
+    ∀ ms : List Msg, (allBatches ms ∨ allPoints ms) → run {} cfg ms = spec cfg ms
+
+/-- Proved part: the cumulativeSum reducer state machine (`AggregateX` then `Emit`, as the model's
+`tBatchPoint` drives it) emits, for every point, that point's time and the SUM OF ALL VALUES SO FAR. -/
+theorem cumulativeSum_prefix_sums_partial (cfg : Cfg) (hf : cfg.fn = .cumulativeSum) (k : Kind) (xs : List QP)
+    (p : QP) (hk : ∀ x ∈ xs ++ [p], x.val.kind = k) :
+    (tStep cfg (tRun cfg {} xs) p).2 = [{ time := some p.time, val := sumVals k (xs ++ [p]) }] :=
+  cumsum_emits_prefix_sum' cfg hf k xs p hk
+
+example : (tStep { fn := .cumulativeSum, as_ := "c" } (tRun { fn := .cumulativeSum, as_ := "c" } {} [⟨1, .int 2, [], []⟩]) ⟨2, .int 5, [], []⟩).2
+    = [{ time := some 2, val := .int 7 }] := by decide
+
 /-! ### The defects of snapshot ef0888e, on the model of the old code (each replayed on the real code by the
 corpus file named; each repaired by a `fix:` commit, see findings/C11.txt) -/
 
